@@ -13,7 +13,7 @@ TECHNIQUE = ("bounded-exhaustive enumeration of reservation layouts, "
 RULE = ("family A: one chip, capacity 8, every ordered list of <=2 (thorough "
         "<=3) disjoint reserved ranges each global or per-chip, alignment in "
         "{none,1,2,3,4}, every ordered tuple of <=3 vertices needing 0..4; "
-        "family B: two chips (one a resource exception) x second resource x "
+        "family C: three chips, one with more and one with less than the machine-wide amount, reservations anywhere in the larger range; family B: two chips (one a resource exception) x second resource x "
         "reservation menu x all placements x all placement-dict orders. "
         "Non-trivial: at least one vertex needs >0 and at least one "
         "reservation or alignment or second chip is involved; cases are "
@@ -75,6 +75,8 @@ def shards(tier):
         for k0 in range(nk):
             for p0 in range(2):
                 out.append(dict(fam="B", align=al, nv=3, first=[k0, p0]))
+    for k in range(8):
+        out.append(dict(fam="C", big=8, k=k, K=8))
     return out
 
 
@@ -153,7 +155,7 @@ def judge(case, acc):
                     c = cap(xy, r)
                     used = [False] * c
                     for a, b in reserved(xy, r):
-                        for i in range(a, b):
+                        for i in range(a, min(b, c)):
                             used[i] = True
                     free = [i for i in range(c) if not used[i]]
                     contiguous = (not free or
@@ -309,9 +311,52 @@ def run_B(params, tier, acc):
                         alignment=al, layouts=len(layouts)))
 
 
+def run_C(params, tier, acc):
+    """A chip that has MORE of a resource than the machine-wide figure (and
+    one that has less): reservations - global or for one chip - anywhere in
+    the larger range, also wholly beyond the end of the smaller chips."""
+    big = params["big"]
+    chips = [(0, 0), (1, 0), (2, 0)]
+    rs = ranges(big) if tier != "quick" else \
+        [(a, b) for a, b in ranges(big) if b - a <= 3 or a == 0]
+    items = [(rg, loc) for rg in rs for loc in [None] + chips[:2]]
+    layouts = [(a,) for a in items]
+    for a, b in itertools.permutations(items, 2):
+        if max(a[0][0], b[0][0]) < min(a[0][1], b[0][1]) and \
+                (a[1] is None or b[1] is None or a[1] == b[1]):
+            continue
+        if a[1] is not None and b[1] is not None and a[1] != b[1]:
+            continue
+        layouts.append((a, b))
+    needs = [1, 2, 3, 5]
+    k = params["k"]
+    i = -1
+    for layout in layouts:
+        i += 1
+        if i % params["K"] != k:
+            continue
+        for nv in (1, 2):
+            for nd in itertools.product(needs, repeat=nv):
+                for places in itertools.product(chips, repeat=nv):
+                    case = dict(
+                        w=3, caps=[["R", 4]],
+                        exceptions=[[[1, 0], [["R", big]]],
+                                    [[2, 0], [["R", 3]]]],
+                        reservations=[["R", list(rg), loc]
+                                      for rg, loc in layout],
+                        alignments=[],
+                        vertices=[["v%d" % j, [["R", nd[j]]], list(places[j])]
+                                  for j in range(nv)])
+                    acc.nontrivial += 1
+                    judge(case, acc)
+    acc.sample(dict(family="C", big=big, layouts=len(layouts)))
+
+
 def run_shard(params, tier, acc):
     if params["fam"] == "A":
         run_A(params, tier, acc)
+    elif params["fam"] == "C":
+        run_C(params, tier, acc)
     else:
         run_B(params, tier, acc)
 
